@@ -40,6 +40,7 @@ class Ctx:
         self.heap = {}                    # object id -> {'cls': qual, 'attrs': {}}
         self.max_depth = max_depth
         self.inline = inline
+        self.lambdas = {}                 # key -> (ast.Lambda, captured environment, module)
         self.inline_only = None           # optional predicate on Func: only these callees are followed, every other package call stays a call
         self.no_inline = set(no_inline)
         self.counter = 0
@@ -312,8 +313,37 @@ class Frame:
         # the repository has one try (optional tqdm import): evaluate the body; handlers are alternative
         # continuations whose effects are merged under an opaque "exception" condition
         env0 = dict(self.env)
+        n_r = len(self.ctx.raises)
         out = self.block(s.body)
         env1 = self.env
+        # exactly modelled outcome of the body: which of the handlers' exception types it raised, if any
+        def caught_by(h, kind):
+            if h.type is None:
+                return True
+            names = [ast.unparse(e).rsplit('.', 1)[-1] for e in (h.type.elts if isinstance(h.type, ast.Tuple) else [h.type])]
+            return kind in names or 'Exception' in names or 'BaseException' in names
+        new = self.ctx.raises[n_r:]
+        hit = [(i, r) for i, r in enumerate(new) if any(caught_by(h, r[0]) for h in s.handlers)]
+        if not hit and not s.finalbody and not any(e['kind'] in ('call', 'pkgcall') and not e.get('inlined') for e in self.ctx.trace[-0:0]):
+            pure = all(isinstance(x, (ast.Assign, ast.Expr, ast.Return, ast.AugAssign, ast.AnnAssign)) for x in s.body)
+            calls_out = any(isinstance(c, ast.Call) for x in s.body for c in ast.walk(x))
+            if pure and not calls_out:
+                # the body is straight-line code without calls and raised none of the handled types on this path: no handler runs
+                if s.orelse:
+                    self.block(s.orelse)
+                return out if out != RAISE else FALL
+        if len(hit) == 1 and hit[0][1][1] == T.and_(self.pc) and len(s.handlers) >= 1:
+            # the body raises a handled exception unconditionally on this path: the try statement IS its handler
+            i, r = hit[0]
+            del self.ctx.raises[n_r + i]
+            self.env = dict(env0)
+            h = next(h for h in s.handlers if caught_by(h, r[0]))
+            if h.name:
+                self.env[h.name] = ('exc', r[0])
+            out_h = self.block(h.body)
+            if s.finalbody:
+                self.block(s.finalbody)
+            return out_h
         for h in s.handlers:
             self.env = dict(env0)
             cond = ('atom', f'raises[{ast.unparse(h.type) if h.type else "*"}]', 'bool')
@@ -879,6 +909,9 @@ class Frame:
                 ast.literal_eval(v)          # a literal tuple / list / dict of constants: its value is known
                 return self.ex(v)
             except Exception:
+                if isinstance(v, ast.Dict) and all(isinstance(k_, ast.Constant) for k_ in v.keys) and \
+                        all(isinstance(x, (ast.Lambda, ast.Name, ast.Attribute, ast.Constant)) for x in v.values):
+                    return self.ex(v)        # a module-level dispatch table: constant keys, values that are functions / constants
                 return ('global', self.mod, n.id)
         if n.id in ('True', 'False', 'None'):
             return C({'True': True, 'False': False, 'None': None}[n.id])
@@ -1179,6 +1212,7 @@ class Frame:
             if T.isconst(k):
                 v = dict(b[1]).get(k[1])
                 if v is None:
+                    self.ctx.raises.append(('KeyError', T.and_(self.pc), self.where(n) if n is not None else '?'))
                     self.ctx.event('keyerror', k[1], (b,), guard=self.guard(), where=self.where(n) if n is not None else '?')
                     return ('missing', k[1])
                 return v
@@ -1198,7 +1232,12 @@ class Frame:
         return ('starred', self.ex(n.value))
 
     def ex_Lambda(self, n):
-        return ('opaque', 'lambda')
+        a = n.args
+        if a.vararg or a.kwarg or a.kwonlyargs or a.defaults or a.posonlyargs:
+            return ('opaque', 'lambda')
+        key = f'lambda@{self.mod}:{n.lineno}:{n.col_offset}'
+        self.ctx.lambdas[key] = (n, dict(self.env), self.mod)
+        return ('lambda', key)
 
     def comprehension(self, n, kind):
         r = self.unroll_comprehension(n, kind)
